@@ -300,6 +300,125 @@ def gen_history(rnd, nops, k):
     return prog
 
 
+# ---------------------------------------------------------------------------------------------------------------------
+# deterministic families of direction (B) (tools/round3_note.md): size sweeps across thresholds, long outputs, strings with
+# large spare capacity, the full byte range, stale errno.  All of them are recorded on the real classes with the per-call
+# heap account on (C01_OWN_HEAP) and validated by TLC against StrObjTrace like the random histories.
+POW2 = [8, 16, 32, 64, 128, 256, 512, 1024, 2048, 4096, 8192]
+CHUNKISH = [4096 - 32, 4096 - 16, 4096 - 8, 8192 - 32, 8192 - 16, 8192 - 8]      # chunk sizes less an allocator overhead
+
+
+def gch(k):
+    """k-th (1-based) character of the generated contents (GenContent of StrObjTrace.tla, gen_content of the harness)."""
+    return 97 + ((k * 7 + k // 61) % 26)
+
+
+def fam_growth(tier):
+    """Grow a string by single steps of every growing operation through EVERY length up to 8200 (the harness checks the
+    representation after each call inside a burst); the text is observed by TLC just before, at and after each threshold."""
+    land = sorted(set([16, 128, 1024, 4096, 8192] + CHUNKISH if tier == "quick" else POW2 + CHUNKISH + [127, 255]))
+    out = []
+    for op, unit, arg in (("append_char", 1, [120]), ("prepend_char", 1, [120]), ("append_from_ptr", 1, [[121]]),
+                          ("prepend_from_ptr", 1, [[121]]), ("append", 1, []), ("prepend", 1, []), ("append_from_ptr", 3, [[97, 66, 200]]),
+                          ("prepend_from_ptr", 7, [[49, 50, 51, 52, 53, 54, 55]])):
+        h = [("a", "new", [])]
+        if op in ("append", "prepend"):
+            h.append(("b", "new_from_ptr", [[122]]))
+        cur = 0
+        for b in land:
+            for target in (b - 1, b, b + 1):
+                k = (target - cur) // unit
+                if k <= 0:
+                    continue
+                h.append(("a", op + "_n", [k] + arg))
+                cur += k * unit
+                h.append(("a", "len", []))
+        h.append(("a", "dup" if op not in ("append", "prepend") else "len", []))
+        out.append(("growth:" + op, h))
+    return out
+
+
+def fam_sweep(tier):
+    """Every operation of the model once at sizes n-1, n, n+1 around each threshold, position classes first/last/absent,
+    long sprintf outputs into a string that already owns a buffer and into a fresh one."""
+    if tier == "quick":
+        sizes = [15, 16, 17, 1023, 1024, 1025, 4079, 4080, 4081, 4095, 4096, 4097, 8192]
+    else:
+        sizes = sorted(set(x for n in POW2 + CHUNKISH + [20480] for x in (n - 1, n, n + 1)))
+    out = []
+    for L in sizes:
+        h = [("a", "new_from_fd_gen", [L, 0, 0]), ("a", "len", []),
+             ("a", "index", [gch(1)]), ("a", "index", [35]), ("a", "rindex", [gch(L)]), ("a", "rindex", [35]),
+             ("a", "find_from_ptr", [[gch(L - 1), gch(L)]]), ("a", "find_from_ptr", [[35]]), ("a", "find_from_ptr", [[gch(1), gch(2), gch(3)]]),
+             ("a", "substr", [-1, 1]), ("a", "substr", [0, 0]), ("a", "substr_to_ptr", [L - 2, 5]), ("a", "substr", [L, 1]),
+             ("a", "substr_to_ptr", [-L, L + 3]), ("a", "cmp_with_ptr", [[gch(1)]]), ("a", "ncmp_with_ptr", [[gch(1), gch(2)], 2]),
+             ("a", "dup", []), ("a", "cmp", []), ("a", "ncmp", [L]), ("a", "find", []),
+             ("b", "append_char", [33]), ("a", "cmp", []), ("a", "ncmp", [L]), ("a", "ncmp", [L + 1]), ("a", "casecmp", []), ("a", "ncasecmp", [L + 1]),
+             ("a", "find", []), ("b", "find", []), ("b", "upcase", []), ("a", "casecmp", []), ("a", "cmp", []),
+             ("b", "clear", [122]), ("b", "prepend_char", [33]), ("b", "splice_from_ptr", [0, 1, []]), ("b", "del", []),
+             ("a", "append_char", [33]), ("a", "prepend_char", [33]), ("a", "splice_from_ptr", [L // 2, 1, [120, 121]]),
+             ("a", "splice_from_ptr", [-1, 1, []]), ("a", "splice_from_ptr", [0, L, [65]]), ("a", "re_from_fd_gen", [L, 0, 1]),
+             ("a", "upcase", []), ("a", "downcase", []), ("a", "reverse", []),
+             ("a", "prepend_from_ptr", [[32, 32]]), ("a", "append_from_ptr", [[32, 9]]), ("a", "trim", []),
+             ("a", "dup", []), ("b", "reverse", []), ("a", "append", []), ("a", "re_from_fp_gen", [L + 1, L + 1, 0]), ("a", "prepend", []), ("b", "del", []),
+             ("a", "clear", [113]),
+             ("a", "sprintf_s_gen", [L]), ("a", "sprintf_s_gen", [L + 1]), ("a", "sprintf_sd", [[97], 5]), ("a", "sprintf_s_gen", [L - 1]),
+             ("a", "done", []), ("a", "sprintf_s_gen", [L]), ("a", "sprintf_lit", [[]]), ("a", "sprintf_s_gen", [L]), ("a", "del", [])]
+        out.append(("sweep", h))
+    return out
+
+
+def fam_slack(tier):
+    """Strings with large spare capacity (new_from_buff of a short text in a big buffer, slack accumulated by appending objects
+    that carry slack): dup, then the in-place mutators that trust `size`, on the copy and on the original."""
+    out = []
+    pairs = [(5, 5000), (100, 9000), (2, 2 + 4095), (2, 2 + 4096), (2, 2 + 4097), (2, 2 + 4098), (3, 64), (1, 1 + 1024)]
+    if tier != "quick":
+        pairs += [(7, 7 + n + d) for n in POW2 for d in (-1, 0, 1)] + [(4000, 20000)]
+    for m, size in pairs:
+        h = [("a", "new_from_buff_gen", [m, size]), ("a", "dup", []),
+             ("b", "append_char_n", [60, 120]), ("b", "prepend_char_n", [3, 33]), ("b", "clear", [122]), ("b", "splice_from_ptr", [0, 1, [97, 98, 99, 100]]),
+             ("b", "append_from_ptr", [[65]]), ("b", "del", []),
+             ("a", "append_char_n", [60, 120]), ("a", "dup", []), ("b", "prepend_char", [33]), ("b", "clear", [113]), ("a", "clear", [119]),
+             ("b", "del", []), ("a", "splice_from_ptr", [0, 2, []]), ("a", "dup", []), ("b", "append_char_n", [10, 66]), ("a", "del", []),
+             ("b", "dup", []), ("a", "prepend_char_n", [10, 66]), ("a", "clear", [67])]
+        out.append(("slack", h))
+    # slack accumulated by append(object with slack): size grows by other->size - 1 per call
+    for k in (30, 60):
+        h = [("a", "new_from_ptr", [[97]]), ("b", "new_from_buff_gen", [3, 200]), ("a", "append_n", [k]), ("b", "del", []), ("a", "dup", []),
+             ("b", "append_char_n", [100, 120]), ("b", "clear", [122]), ("b", "prepend_char", [33]), ("b", "del", []),
+             ("b", "new_from_buff_gen", [2, 300]), ("a", "prepend_n", [k]), ("b", "del", []), ("a", "dup", []), ("b", "prepend_char_n", [50, 33]),
+             ("b", "clear", [121])]
+        out.append(("slack", h))
+    return out
+
+
+def fam_values(tier):
+    """Every byte value 1..255 as first, inner and last character of the text and as argument of every operation that takes
+    a character or a text."""
+    out = []
+    for lo in range(1, 256, 32):
+        h = [("a", "new", [])]
+        for c in range(lo, min(lo + 32, 256)):
+            t = [c, 97, c, 66, c]
+            h += [("a", "re_from_ptr", [t]), ("a", "index", [c]), ("a", "rindex", [c]), ("a", "index", [97]), ("a", "find_from_ptr", [[c, 66]]),
+                  ("a", "cmp_with_ptr", [[c]]), ("a", "cmp_with_ptr", [[c, 97, c, 66, c]]), ("a", "casecmp_with_ptr", [[c, 65, c, 98, c]]),
+                  ("a", "ncmp_with_ptr", [[c, 97, 1], 2]), ("a", "ncasecmp_with_ptr", [[c, 65, 1], 2]),
+                  ("a", "upcase", []), ("a", "downcase", []), ("a", "reverse", []), ("a", "trim", []), ("a", "substr", [0, 1]), ("a", "substr_to_ptr", [-1, 1]),
+                  ("a", "re_from_buff", [[c, 0, c], 3]), ("a", "append_char", [c]), ("a", "prepend_char", [c]), ("a", "clear", [c]),
+                  ("a", "splice_from_ptr", [1, 1, [c]]), ("a", "sprintf_s", [[c, 32, c]]), ("a", "re_from_fd", [[c, 98, c], 0]),
+                  ("a", "re_from_fp", [[c, 98, c, 10, c], 1]), ("a", "append_from_ptr", [[c]]), ("a", "prepend_from_ptr", [[c]]), ("a", "trim", []),
+                  ("a", "len", [])]
+            if c != 37:
+                h.append(("a", "sprintf_lit", [[c, 97]]))
+        out.append(("values", h))
+    return out
+
+
+def families(tier):
+    return fam_growth(tier) + fam_sweep(tier) + fam_slack(tier) + fam_values(tier)
+
+
 def opname(sl, bop):
     return bop if sl == "a" else "b_" + bop
 
@@ -308,10 +427,16 @@ def history_text(k, h):
     return "S %d\n%s\nE\n" % (k + 1, "\n".join("%s %s = ? ?" % (opname(sl, bop), " ".join(tok(x) for x in args)) for sl, bop, args in h))
 
 
-def record(ctx, exe, cls, hist, texts):
-    """Runs the histories on one class in record mode.  Returns (events, index, fails): the NDJSON events for StrObjTrace
-    (executions separated by reset events) and, per event, (script id, step)."""
-    fails, recs, ns, nt = run_scripts(exe, [cls], texts, ctx.rundir, jobs=4, tag="rec-" + cls, env={"VH_NO_HEAP": "1", "VH_WATCHDOG": "120"})
+def record(ctx, exe, cls, hist, texts, errno_preset=0, raw=False):
+    """Runs the histories on one class in record mode (per-call heap account on).  Returns (events, index, fails): the NDJSON
+    events for StrObjTrace (executions separated by reset events) and, per event, (script id, step).  raw=True: only the
+    recorded lines (for the purity comparison under a stale errno)."""
+    env = {"VH_NO_HEAP": "1", "VH_WATCHDOG": "120", "C01_OWN_HEAP": "1"}
+    if errno_preset:
+        env["C01_ERRNO"] = str(errno_preset)
+    fails, recs, ns, nt = run_scripts(exe, [cls], texts, ctx.rundir, jobs=4, tag="rec-%s-%d" % (cls, errno_preset), env=env)
+    if raw:
+        return sorted(recs), fails
     bad = set(f.sid for f in fails)
     by = {}
     for sid, step, ret, state in recs:
@@ -332,22 +457,31 @@ def record(ctx, exe, cls, hist, texts):
     return events, index, fails
 
 
+def _fail_key(cls, label, hist, f):
+    sl, bop, args = hist[f.sid - 1][f.step] if f.step < len(hist[f.sid - 1]) else ("a", f.op, [])
+    d = re.sub(r"-?\d+", "N", f.got) if f.kind in ("inv", "heap") else f.sig
+    return sl, bop, args, "trace[%s] %s.%s %s%s" % (label.split(":")[0], cls, bop, f.kind, ("/" + d) if d else "")
+
+
 def trace_validation(ctx, exe):
     from vlib import trace
     rnd = random.Random(ctx.seed)
     nexec, nops = (8, 50) if ctx.tier == "quick" else (24, 160)
-    hist = [gen_history(rnd, nops if k % 4 else max(50, nops // 2), k) for k in range(nexec)]
+    labelled = [("random", gen_history(rnd, nops if k % 4 else max(50, nops // 2), k)) for k in range(nexec)] + families(ctx.tier)
+    labels = [l for l, h in labelled]
+    hist = [h for l, h in labelled]
     texts = [history_text(k, h) for k, h in enumerate(hist)]
+    nfam = len(hist) - nexec
     total = 0
     maxlen = 0
+    purity = 0
     for cls in CLASSES:
         events, index, fails = record(ctx, exe, cls, hist, texts)
         for f in fails:
-            sl, bop, args = hist[f.sid - 1][f.step] if f.step < len(hist[f.sid - 1]) else ("a", f.op, [])
-            d = re.sub(r"-?\d+", "N", f.got) if f.kind == "inv" else f.sig
-            ctx.report("trace %s.%s %s%s" % (cls, bop, f.kind, ("/" + d) if d else ""),
-                       "%s: recorded long-text run failed at step %d (%s %s): %r" % (cls, f.step, opname(sl, bop), json.dumps(args)[:80], f),
-                       {"variant": cls, "harness_args": [cls], "script_text": texts[f.sid - 1], "failure": repr(f), "detail": f.detail})
+            sl, bop, args, key = _fail_key(cls, labels[f.sid - 1], hist, f)
+            ctx.report(key, "%s: recorded run (%s) failed at step %d (%s %s): %r" % (cls, labels[f.sid - 1], f.step, opname(sl, bop), json.dumps(args)[:80], f),
+                       {"variant": cls, "harness_args": [cls], "script_text": texts[f.sid - 1], "failure": repr(f), "detail": f.detail,
+                        "trace_family": labels[f.sid - 1]})
         if not events:
             continue
         for ev in events:
@@ -360,16 +494,63 @@ def trace_validation(ctx, exe):
             evb = events[pos] if pos < len(events) else None
             brief = dict(evb or {})
             brief.pop("post", None)
-            ctx.report("trace-rejected %s.%s" % (cls, evb["bop"] if evb else "?"),
-                       "%s: TLC rejects the recorded execution at event %d (script %s step %s): %s" % (cls, pos, sid, step, json.dumps(brief)[:300]),
+            ctx.report("trace-rejected[%s] %s.%s" % (labels[sid - 1].split(":")[0] if sid else "?", cls, evb["bop"] if evb else "?"),
+                       "%s: TLC rejects the recorded execution (%s) at event %d (script %s step %s): %s" % (
+                           cls, labels[sid - 1] if sid else "?", pos, sid, step, json.dumps(brief)[:300]),
                        {"variant": cls, "harness_args": [cls], "script_text": texts[sid - 1] if sid else "", "event_index": pos,
                         "event": {k: (v if k != "post" else "(omitted)") for k, v in (evb or {}).items()}})
         else:
             ctx.sample({"variant": cls, "trace_events": len(events), "longest_text": maxlen,
                         "first_events": [json.dumps({k: v for k, v in e.items() if k != "post"})[:140] for e in events[1:4]]})
+        # purity under stale state: the deterministic families recorded again with errno preset to EINTR / ERANGE before
+        # every call must give exactly the same recording (no TLC needed: the first recording is the validated one)
+        ftexts = texts[nexec:]
+        base, bfails = record(ctx, exe, cls, hist[nexec:], ftexts, raw=True)
+        for en, name in ((4, "EINTR"), (34, "ERANGE")) if not bfails else ():
+            again, afails = record(ctx, exe, cls, hist[nexec:], ftexts, errno_preset=en, raw=True)
+            purity += len(again)
+            for f in afails:
+                sl, bop, args, key = _fail_key(cls, labels[nexec + f.sid - 1], hist[nexec:], f)
+                ctx.report(key + " errno=" + name, "%s: run with errno preset to %s fails at step %d (%s): %r" % (cls, name, f.step, opname(sl, bop), f),
+                           {"variant": cls, "harness_args": [cls], "script_text": ftexts[f.sid - 1], "failure": repr(f), "detail": f.detail,
+                            "trace_family": labels[nexec + f.sid - 1], "errno": en})
+            if not afails and again != base:
+                k = next((i for i in range(min(len(again), len(base))) if again[i] != base[i]), 0)
+                sid, step = base[k][0], base[k][1]
+                sl, bop, args = hist[nexec + sid - 1][step]
+                ctx.report("impure[%s] %s.%s errno=%s" % (labels[nexec + sid - 1].split(":")[0], cls, bop, name),
+                           "%s: %s gives a different result when errno is %s before the call: %s vs %s" % (
+                               cls, opname(sl, bop), name, str(base[k][2:])[:120], str(again[k][2:])[:120]),
+                           {"variant": cls, "harness_args": [cls], "script_text": ftexts[sid - 1], "trace_family": labels[nexec + sid - 1], "errno": en})
     ctx.add("trace_events_validated", total)
-    ctx.add("traces_validated_against_impl", nexec * len(CLASSES))
+    ctx.add("traces_validated_against_impl", len(hist) * len(CLASSES))
     ctx.cov["trace_longest_text"] = maxlen
+    ctx.cov["trace_families"] = {"random": nexec, "deterministic": nfam, "by_family": {l: sum(1 for x in labels if x.split(":")[0] == l)
+                                                                                   for l in ("growth", "sweep", "slack", "values")},
+                                 "stale_errno_purity_records": purity}
+
+
+def heap_families(ctx):
+    """For C06 (every allocation is released exactly once): the deterministic families of direction (B) - size sweeps, long
+    sprintf outputs into strings that already own a buffer, dup/append of strings with large spare capacity, re-initialisation -
+    executed on str and ustr with the per-call heap account of harness/str_replay.c (everything allocated since the script began
+    must be owned by a live string after every call, and nothing may be left at the end).  No value oracle here (C01 has it)."""
+    exe = harness(ctx)
+    labelled = families(ctx.tier)
+    hist = [h for l, h in labelled]
+    texts = [history_text(k, h) for k, h in enumerate(hist)]
+    steps = 0
+    for cls in CLASSES:
+        recs, fails = record(ctx, exe, cls, hist, texts, raw=True)
+        steps += len(recs)
+        for f in fails:
+            sl, bop, args, key = _fail_key(cls, labelled[f.sid - 1][0], hist, f)
+            ctx.report(key, "%s: heap-accounted run (%s) failed at step %d (%s %s): %r" % (cls, labelled[f.sid - 1][0], f.step, opname(sl, bop), json.dumps(args)[:80], f),
+                       {"variant": cls, "harness_args": [cls], "script_text": texts[f.sid - 1], "failure": repr(f), "detail": f.detail,
+                        "trace_family": labelled[f.sid - 1][0], "check": "c01"})
+    ctx.cov["str_heap_families"] = {"scripts": len(hist) * len(CLASSES), "steps": steps}
+    ctx.add("traces_validated_against_impl", len(hist) * len(CLASSES))
+    ctx.add("evaluations", steps)
 
 
 def run(ctx):
@@ -399,6 +580,16 @@ def replay(ctx, path):
     d = json.load(open(path))
     rp = d.get("replay") or {}
     exe = harness(ctx)
+    if "trace_family" in rp and "event_index" not in rp:
+        # a recorded run that failed in the harness (ASan, representation, per-call heap account): run it again the same way
+        recs, fails = record(ctx, exe, rp["variant"], None, [rp["script_text"]], errno_preset=rp.get("errno", 0), raw=True)
+        for f in fails:
+            print("REPRODUCED", f)
+            if f.detail:
+                print(f.detail)
+        if not fails:
+            print("not reproduced: the recorded run passes (%d steps)" % len(recs))
+        return 1 if fails else 0
     if "event_index" not in rp:
         return objcheck.replay_file(exe, [], path, ctx.rundir)
     # a recorded execution that TLC rejected: record it again on the current tree and validate it again
